@@ -216,3 +216,41 @@ def h6_fit(ctx, fam):
         ctx.oblige(f'first_fit_keeps_its_coefficients_{i}', ctx.eq(ctx.vals(fit1.coeffs)[i], ret[1][i]))
         ctx.oblige(f'second_fit_reports_its_own_{i}', ctx.eq(ctx.vals(fit2.coeffs)[i], ret[0][i]))
     ctx.observe('res0', res[0])
+
+
+@harness('C10', 'H7_fit_many_terms', funcs=FUNCS, cases=lambda tier: [dict(fam=f) for f in ('fringe', 'standard', 'noll')],
+         stubs=['scipy.optimize.least_squares -> returns an arbitrary vector x'],
+         bounds='N = 37 terms (one more than the default length of a freshly constructed polynomial object), one concrete sample point (0.3, 0.4), '
+                '37 symbolic trial coefficients',
+         doc='every one of the num_terms coefficients takes part in the fit objective: changing the k-th trial coefficient by d changes the residual '
+             'by d times the k-th term of the family at the sample point (checked for the first, the 36th and the 37th coefficient)')
+def h7_fit_many(ctx, fam):
+    import optiland.zernike as zm
+    N = 37
+    c = [ctx.real(f'c{i}', lo=-10.0, hi=10.0) for i in range(N)]
+    d = ctx.real('d', lo=-10.0, hi=10.0)
+    ret = [ctx.real(f'ret{i}', lo=-10.0, hi=10.0) for i in range(N)]
+
+    class R:
+        pass
+
+    def stub(fun, x0, **k):
+        r_ = R()
+        r_.x = ctx.arr(*ret)
+        return r_
+    zm.least_squares = stub
+    x, y = 0.3, 0.4
+    fit = zm.ZernikeFit(ctx.arr(x), ctx.arr(y), ctx.arr(ctx.real('z0', lo=-10.0, hi=10.0)), zernike_type=fam, num_terms=N)
+    base = ctx.val(fit._objective(ctx.arr(*c)))
+    ctx.oblige('all_coefficients_reported', len(ctx.vals(fit.coeffs)) == N)
+    ref = family(fam, [0.0] * N)
+    for k in (0, 35, 36):
+        c2 = list(c)
+        c2[k] = c2[k] + d
+        got = ctx.val(fit._objective(ctx.arr(*c2)))
+        n_, m_ = ref.indices[k]
+        term = ctx.val(ref.get_term(1.0, n_, m_, ctx.val(fit.radius), ctx.val(fit.phi)))
+        # (to within 1e-9: the library multiplies c N R A from the left, the oracle has the rounded product N R A)
+        ctx.oblige(f'coefficient_{k + 1}_takes_part', ctx.approx(got - base, d * term, 1e-9))
+        ctx.oblige(f'term_{k + 1}_does_not_vanish_at_the_sample_point', ctx.Not(ctx.approx(term, 0.0, 1e-6)))
+    ctx.observe('d', d)
